@@ -1303,6 +1303,13 @@ class Interp:
     def ev_mcall(self, e, env):
         recv = self.eval(e[1], env)
         name = e[2]
+        if name == "clone_into" and len(e[3]) == 1:
+            # a.clone_into(&mut place)  ==  place = a.clone()
+            target = e[3][0]
+            while target[0] in ("ref", "deref"):
+                target = target[1]
+            self.assign(target, self._clone(recv), env)
+            return ()
         # closures in arguments are evaluated lazily as Closure values
         args = [self.eval(a, env) for a in e[3]]
         return self.method(recv, name, args)
@@ -1584,6 +1591,16 @@ class Interp:
         if name == "extend":
             recv.extend(self.iterate(args[0]))
             return ()
+        if name == "zip":
+            other = self.iterate(args[0])
+            return [(a, b) for a, b in zip(recv, other)]
+        if name == "fold":
+            acc = args[0]
+            for x in recv:
+                acc = self.call_value(args[1], [acc, x])
+            return acc
+        if name in ("as_bytes", "bytes", "chars", "as_str", "to_owned", "as_ref"):
+            return recv
         if name == "append":
             other = args[0]
             recv.extend(other)
